@@ -26,7 +26,7 @@ From FB.Spec Require Import JsonSpec Prog Ref Oracle.
 From FB.Model Require Import Persist Core CoreOracle CoreCache.
 From FB.Proofs Require Import ReplayLaws BuildFileLaws CoreRebuildDefs CoreRebuildMain CoreRebuildIter.
 From Coq Require Import NArith.
-From FB.Proofs Require SimO1 SimO2 SimO3.
+From FB.Proofs Require SimO1 SimO2 SimO3 SimQ3.
 (* T1g: Model/BuildDirs.v and Model/CreatedFiles.v are equal to the translation of build_dirs.py / created_files.py
    (Gen/BookGen.v, regenerated on every run); a change of those sources that the model does not follow breaks this import *)
 From FB.Proofs Require BookGenLaws.
@@ -89,9 +89,9 @@ Proof. exact replay_footprint. Qed.
 
 (* THE MECHANISM MODEL (Proofs/SimO1-3.v = the simulation mechanism ~ Core of SimJ9.v composed with the Core theorem
    above): a rebuild by the mechanism model - the model proved equal to the translation of the Python - whose previous
-   cache and tree are those a committed all-successful build left (CoreSame: Core cannot tell them from its own next
-   state; discharged by computation on a genuine two-build history in SimO2.Inst, open in general:
-   SimO2.core_build_invariance_statement) returns the recorded value and its visible log holds the root invocation and
+   cache and tree are those a committed all-successful build left (the tree agrees with Core's next tree away from the
+   cache file, which is a regular file; the cache read has the same lookups, directories and versions as Core's next
+   cache, in any order: SimQ1-3.v core_build_invariance - Core cannot tell them apart) returns the recorded value and its visible log holds the root invocation and
    answers only: no function runs.  MechBuildHyps bundles the hypotheses of SimJ9.build_agree_hash (class okcH, program
    side conditions). *)
 Theorem C05_mechanism_unchanged_rebuild_runs_no_function :
@@ -107,16 +107,22 @@ Theorem C05_mechanism_unchanged_rebuild_runs_no_function :
        CoreRebuildDefs.no_foreign_targets fs cf old0 s1 ->
        forall (w : Types.world) (old : Types.cache) (nm0 nm : string) (w1 w2 : Types.world)
          (r : Builder.outcome) (l : list Types.op),
-       SimO2.CoreSame (CoreOracle.core_build (Types.w_fs w) cf old svers (Types.w_clock w) (Types.w_nextid w) root)
-         (CoreOracle.core_build (CoreCache.next_fs cf s1) cf (CoreCache.cache_of_state nm0 s1) svers
-            (Types.w_clock w) (Types.w_nextid w) root) ->
+       (forall p : Fs.path, p <> cf -> Fs.lookup (Types.w_fs w) p = Fs.lookup (CoreCache.next_fs cf s1) p) ->
+       Fs.isfile (Types.w_fs w) cf = true ->
+       NoDup (map fst (Types.c_files old)) ->
+       (forall p : Fs.path,
+        SimpleOps.cache_get_file old p = SimpleOps.cache_get_file (CoreCache.cache_of_state nm0 s1) p) ->
+       (forall k : PyVal.pyval,
+        Types.subs_get (Types.c_subs old) k = Types.subs_get (Types.c_subs (CoreCache.cache_of_state nm0 s1)) k) ->
+       Types.c_dirs old = Types.c_dirs (CoreCache.cache_of_state nm0 s1) ->
+       Types.c_fvers old = Types.c_fvers (CoreCache.cache_of_state nm0 s1) ->
        SimO1.MechBuildHyps w cf old nm svers root w1 w2 r l ->
        r = inl v /\
        (exists answers : list Types.logentry,
           ViewK3.vis_log (Types.w_log w2) =
           rev (Types.LInvoke "<root>"%string None PyVal.PNone PyVal.PNone :: answers) ++ ViewK3.vis_log (Types.w_log w1) /\
           forallb CoreRebuildDefs.is_answer answers = true).
-Proof. exact SimO2.mech_rebuild_runs_no_function_gen. Qed.
+Proof. exact SimQ3.mech_rebuild_runs_no_function_closed. Qed.
 
 (* ... and rewrites nothing: every node of the mechanism's view is the node of the tree the first build left (same bytes,
    mtime, inode), when no file of that tree is newer than the clock *)
@@ -133,12 +139,18 @@ Theorem C05_mechanism_unchanged_rebuild_rewrites_nothing :
        CoreRebuildDefs.no_foreign_targets fs cf old0 s1 ->
        forall (w : Types.world) (old : Types.cache) (nm0 nm : string) (w1 w2 : Types.world)
          (r : Builder.outcome) (l : list Types.op),
-       SimO2.CoreSame (CoreOracle.core_build (Types.w_fs w) cf old svers (Types.w_clock w) (Types.w_nextid w) root)
-         (CoreOracle.core_build (CoreCache.next_fs cf s1) cf (CoreCache.cache_of_state nm0 s1) svers
-            (Types.w_clock w) (Types.w_nextid w) root) ->
+       (forall p : Fs.path, p <> cf -> Fs.lookup (Types.w_fs w) p = Fs.lookup (CoreCache.next_fs cf s1) p) ->
+       Fs.isfile (Types.w_fs w) cf = true ->
+       NoDup (map fst (Types.c_files old)) ->
+       (forall p : Fs.path,
+        SimpleOps.cache_get_file old p = SimpleOps.cache_get_file (CoreCache.cache_of_state nm0 s1) p) ->
+       (forall k : PyVal.pyval,
+        Types.subs_get (Types.c_subs old) k = Types.subs_get (Types.c_subs (CoreCache.cache_of_state nm0 s1)) k) ->
+       Types.c_dirs old = Types.c_dirs (CoreCache.cache_of_state nm0 s1) ->
+       Types.c_fvers old = Types.c_fvers (CoreCache.cache_of_state nm0 s1) ->
        SimO1.MechBuildHyps w cf old nm svers root w1 w2 r l ->
        SimO1.FilesOld (CoreOracle.cr_tree (CoreOracle.core_build fs cf old0 svers clock nextid root)) (Types.w_clock w) ->
        forall p : Fs.path,
        Fs.lookup (ViewDefs.view_fs w2) p =
        Fs.lookup (CoreOracle.cr_tree (CoreOracle.core_build fs cf old0 svers clock nextid root)) p.
-Proof. exact SimO2.mech_rebuild_tree_identical_gen. Qed.
+Proof. exact SimQ3.mech_rebuild_tree_identical_closed. Qed.
